@@ -1,0 +1,6 @@
+//go:build !verif
+// +build !verif
+
+package destination
+
+func verifEvent(name string, args ...interface{}) {}
